@@ -320,7 +320,52 @@ def r7_typepath(chk):
                 pass
 
 
+def r8_typepath_ctor(chk):
+    """The counterpart / error type an impl names is TypePath.path + TypePath.generics; both are cut out of the path the user wrote by
+    TypePath::from(syn::Path). Contract (decided by partial evaluation over the shape of the last segment): .path is the WHOLE path with the
+    last segment's angle-bracketed arguments cleared, .generics those arguments (None when there are none), .path_str the whole path."""
+    from ..pe import Evaluator, StructV, explore, vkey
+    repo = chk.repo
+    chk.rule("R8", "TypePath::from(syn::Path): .path = the whole path (every qualifier segment) minus the last segment's <..>; .generics = exactly those arguments; .path_str = whole path", floor=2)
+    cands = [f for f in repo.fns(ATTR) if f.name == "from" and f.impl and f.impl.get("self_ty") == "TypePath" and "Path" in f.impl.get("trait", "")]
+    if len(cands) != 1:
+        raise Inconclusive("anchor missing: impl From<syn::Path> for TypePath")
+    fi = cands[0]
+    leaves = explore(lambda: Evaluator(repo, IMPL_FILES, shallow=True), lambda ev: ev.run_fn(fi, ev.sym_params(fi)))
+    n = 0
+    for lf in leaves:
+        if lf.panic:
+            continue  # syn invariant: a Path has at least one segment (C16 G1)
+        if lf.unsupported or not isinstance(lf.value, StructV):
+            chk.inconc("R8", f"TypePath::from not evaluable: {lf.unsupported or vkey(lf.value)[:80]}")
+            continue
+        angle = [v for a, v in lf.decisions.items() if "AngleBracketed" in a]
+        if not angle:
+            chk.inconc("R8", "TypePath::from no longer branches on the last segment's PathArguments::AngleBracketed: " + str(dict(lf.decisions))[:120])
+            continue
+        angle = bool(angle[0])
+        n += 1
+        f_ = {k: vkey(v) for k, v in lf.value.fields.items()}
+        key = f"TypePath::from[last segment {'with' if angle else 'without'} <..>]"
+        path, gens, pstr = f_.get("path", ""), f_.get("generics", ""), f_.get("path_str", "")
+        whole = path == "«‹value›»"
+        projected = bool(re.search(r"value\.segments|\.ident|\.first\(|\.last\(", path))
+        cleared = any(e[0] == "assign" and e[1].endswith(".arguments") and "None" in str(e[2]) for e in lf.effects if len(e) >= 3)
+        if angle:
+            good = whole and cleared and gens.startswith("Some(") and "AngleBracketed" in gens and pstr == "str(‹value›)"
+            bad = projected or (whole and not cleared) or gens == "None" or (pstr != "str(‹value›)" and "value.segments" in pstr)
+        else:
+            good = whole and gens == "None" and pstr == "str(‹value›)"
+            bad = projected or gens.startswith("Some(")
+        chk.shape("R8", key, good, bad, ATTR, fi.line,
+                  what="the path an impl names is not the whole user-written path (qualifier segments dropped, generic arguments kept twice or lost)",
+                  expected="path: whole `value` with last <..> cleared; generics: the cleared arguments; path_str: whole", found=f_)
+    if n < 2:
+        chk.inconc("R8", f"only {n} evaluable leaves of TypePath::from")
+
+
 def run(chk):
+    chk.guard("R8", lambda: r8_typepath_ctor(chk))
     chk.guard("R1", lambda: r1_names(chk))
     chk.guard("R3", lambda: r3_filter(chk))
     chk.guard("R4", lambda: r4_chain(chk))
